@@ -17,6 +17,14 @@ CLAIMS = {
          "register/append, non-empty check and pop are each one critical section; callbacks run with the lock released; every callback kind is reachable only "
          "through the per-group enqueue function with the routed group id. With a correct mutex these imply per-group exclusion for every interleaving; the "
          "value of the group id for a given name is C06's and is not decided here.", "DESIGN.md section 4 C01"),
+ "C02": ("FIFO shape census of both queues + counting typestate over the drain loop + no-drop typestate over enqueue + listener call-path check",
+         "Structural necessary conditions of exactly-once / in-order: both queues are tail-append / head-pop only, the drain loop calls each slot once and advances by one, "
+         "every accepted submission stores the callback exactly once and wakes a worker, one synchronous listener feeds requests with no go on the path to enqueue, and With "
+         "errs iff no handler. The order observed under a concrete schedule is not executed; it follows from these shapes plus the mutex.", "DESIGN.md section 4 C02"),
+ "C03": ("state-machine extraction over atomic accesses + dominance-order obligations + critical-section typestate (closed queue stays closed) + who-may-write of the connection field",
+         "Decides for every interleaving the structural causes of hangs, leaked workers, double close, use-after-clear and refused restarts: legal state transitions only, close protocol order, "
+         "workers awaited before 'stopped', worker exits on observing the closed queue, started-checks dominate every publishing entry point, a closed work queue is never re-opened, the connection "
+         "field is not written while readers may run (one known finding). Bounded time itself is not decided.", "DESIGN.md section 4 C03"),
  "C04": ("flag-sensitive must-reply typestate over SSA CFGs + who-may-write/publish census",
          "Path-universal structural obligations: on every CFG path of request processing (handlers as havoc: reply 0/1 times, return or panic) "
          "library code replies exactly once; reply funnel guarded by the replied flag; recover closure replies iff not replied; every response "
